@@ -6,7 +6,8 @@ from hypothesis import strategies as st
 from vf.core import CaseResult, Ctx, Violation, hyp_run
 from vf.gen.wfspec import wfspecs
 from vf.sim.c06c43_util import (
-    read_db, run_schedule_ext, stop_kind, wrap_commands)
+    read_db, return_polls_promptly, run_schedule_ext, stop_kind,
+    wrap_commands)
 from vf.sim.drive import SCase, outcome_maps, run_async
 
 PROP_ID = 'C43'
@@ -87,6 +88,10 @@ ASSUMPTIONS = [
     'when the stop task fails is not contradicted by the statement.',
     'Order in which pending commands return while the scheduler drains its '
     'process pool during shutdown is FIFO (engine S).',
+    'The restart poll returns in the main-loop iteration after the one '
+    'that launched it (a poll result that arrives after newer job messages is the '
+    'recorded C09/C10 late-poll-result finding and is kept out of the '
+    'schedules).',
     'Status changes are taken from the pooled task proxy only (state events '
     'of data-store ghost proxies / proxies rebuilt from DB history are '
     'dropped by comparing with the pooled proxy).',
@@ -504,6 +509,7 @@ async def _check(case, ctx: Ctx) -> CaseResult:
         sim.hooks.append(m.on_ev)
         wrap_commands(sc.drv, None, m.post)
         sc.drv.after_restart.append(m.after_restart)
+        sc.drv.after_loop.append(return_polls_promptly)
         down = case.get('down') or [0, 0]
 
         async def restart_after_shutdown():
